@@ -185,7 +185,13 @@ func Build(p *Project) (res *Built) {
 			}
 			ee = append(ee, e)
 		}
-		opts = append(opts, core.WithBannedDirectives(ee...))
+		if p.BanSplit {
+			for _, e := range ee {
+				opts = append(opts, core.WithBannedDirectives(e))
+			}
+		} else {
+			opts = append(opts, core.WithBannedDirectives(ee...))
+		}
 	}
 	defer func() {
 		if r := recover(); r != nil {
@@ -313,7 +319,13 @@ func BuildCore(p *Project) (c *core.JApiCore, out *Outcome, dir string, done fun
 			}
 			ee = append(ee, e)
 		}
-		opts = append(opts, core.WithBannedDirectives(ee...))
+		if p.BanSplit {
+			for _, e := range ee {
+				opts = append(opts, core.WithBannedDirectives(e))
+			}
+		} else {
+			opts = append(opts, core.WithBannedDirectives(ee...))
+		}
 	}
 	out = &Outcome{}
 	sig, text, st := Safely(func() {
